@@ -873,3 +873,18 @@ Proof.
   intros [[E H] | [E [H1 H2]]];
     [eapply servo_init_block_setup | eapply servo_init_block_loop]; eassumption.
 Qed.
+
+(* remark (not a finding of C14, whose statement is about libraries): a servo variable bound twice
+   shares ONE object "Servo __servo_<n>;" and is attached once, with the pin and pulse bounds of
+   its FIRST declaration - the hypothesis "first declaration of the name" of
+   servo_attached_as_declared cannot be dropped *)
+Lemma servo_rebind_first_wins :
+  exists p d1 d2,
+    d_setup p = [IServo d1; IServo d2] /\ s_name d1 = s_name d2 /\ s_pin d1 <> s_pin d2 /\
+    lib_init p = servo_init_lines d1 /\ lib_globals p = [servo_obj_line (s_name d1)].
+Proof.
+  exists (mkDProg [IServo (mkServo [115] (VInt 9) (PInt 544) (PInt 2400));
+                   IServo (mkServo [115] (VInt 10) (PInt 544) (PInt 2400))] [] [] []),
+         (mkServo [115] (VInt 9) (PInt 544) (PInt 2400)), (mkServo [115] (VInt 10) (PInt 544) (PInt 2400)).
+  repeat split; try reflexivity. cbn. discriminate.
+Qed.
